@@ -16,7 +16,7 @@ EXPLANATION = ('The kill point is a symbolic integer: every mutating file-system
                'copyfile, os.replace, unlink) is one step of a modelled file system, and the command dies at the step the solver picks, with a symbolic number of bytes of the '
                'write in flight reaching the file. Then the first thing the follow-up `meson setup [--reconfigure]` does is run for real on the resulting files: '
                'Environment.__init__ (coredata.load through pickle_load; regeneration from cmd_line.txt if coredata.dat is unreadable) and read_cmd_line_file as '
-               'MesonApp._generate does. It must not raise, and the option the interrupted command was setting must have its old or its new value.')
+               'MesonApp._generate does. It must not raise, and the option the interrupted command was setting must have its old or its new value. The follow-up then completes: its own write/update_cmd_line_file (with or without a new -D) runs on whatever the killed command left - e.g. coredata.dat but no cmd_line.txt yet - and the record must be readable afterwards.')
 ASSUMPTIONS = ['file system = a dictionary path -> inode; writers are BUFFERED as CPython\'s (write() fills a user-space buffer that reaches the file at flush/close; a killed process never flushes; the inode follows a rename); a kill leaves exactly the effects of the completed steps plus a prefix of the write in flight (no page-cache loss: the '
                'statement is about a killed process, not a power failure)', 'pickle is an opaque encoder: a complete blob unpickles to a deep copy, an empty file raises EOFError, a '
                'truncated one pickle.UnpicklingError (what CPython does)', 'one option (warning_level) is changed from 1 to 2; it was given on the original command line',
@@ -308,6 +308,24 @@ def ob_kill(command):
             uval = user.cmd_line_options.get(M.WL)
             if command != 'first-setup' or uval is not None:
                 check(uval in ('1', '2'), 'the recorded command line has the old or the new value')
+            # ---------------- ... and that follow-up run completes: its own persistence calls (end of msetup.MesonApp._generate) work on whatever the
+            # killed command left (e.g. coredata.dat but no cmd_line.txt yet), and the state is loadable again afterwards
+            newval = '3' if choose(2, 'the follow-up gives -D') == 1 else None
+            f2 = options_with(newval)
+            try:
+                if env.first_invocation:
+                    M.cmdline.write_cmd_line_file(M.bld, f2)
+                else:
+                    M.cmdline.update_cmd_line_file(M.bld, f2)
+                again = options_with(None)
+                M.cmdline.read_cmd_line_file(M.bld, again)
+            except Exception:
+                check(False, 'the follow-up run can record its command line and the record is readable afterwards'); return
+            if newval is not None:
+                check(again.cmd_line_options.get(M.WL) == '3', 'the follow-up run records the value it was given')
+            elif not env.first_invocation and uval is not None:
+                check(again.cmd_line_options.get(M.WL) == uval, 'a follow-up without -D keeps the recorded value')
+            cover('follow-up completed')
     return h
 
 
